@@ -1,5 +1,8 @@
 _OPTS = ["default", "full", "minimal", "fastp", "fastcof", "stable", "mini", "lowfull"]
 _SRC = ["c15_main.cpp"] + ["c15_st_%s.cpp" % n for n in _OPTS]
+_MX = ["mx_base_z2_ilist_rows", "mx_base_z5_set_setrows", "mx_base_z2_iset_compression", "mx_base_z5_heap",
+       "mx_ru_z2_iset_vine_removable", "mx_ru_z5_list", "mx_ru_z2_vector_map_rep", "mx_boundary_z5_uset",
+       "mx_chain_z2_ilist_map_vine", "mx_chain_z5_set_rep", "mx_chain_z2_nvector_setrows_removable"]
 SPEC = {
     "property": "C15",
     "rule": "Simplex_tree: a source tree A is built by a random model-generated history (2-30 ops incl. removals/prunings, so cached dimension bounds may be stale), "
@@ -7,19 +10,23 @@ SPEC = {
             "self move assign, binary serialise/deserialise incl. every length perturbation -16..+16 and random truncations on exact-size heap buffers, "
             "text operator<< / operator>>} is applied; the result and the source are compared with the model through every read interface, "
             "then both objects are driven through different random histories with the OTHER object fully re-checked after every step, and one "
-            "of them is destroyed before the other continues. All 8 option sets, under ASan+UBSan. non-trivial = distinct (history, scenario) "
+            "of them is destroyed before the other continues. All 8 option sets, under ASan+UBSan. Matrix: 11 instantiations (base with intrusive/set rows, compression, heap; RU with vine/rep/map container; boundary; chain with vine/rep/removable columns): a matrix built on a random filtered complex prefix is copied / assigned / self-assigned / moved / swapped, the full dump (all columns of R and U, barcode, rows) is compared, both objects are then driven differently (remaining cells, remove_last) with the other re-dumped, barcodes are compared with an independent reduction, one object is destroyed before the other continues; a moved-from matrix must report 0 columns and be usable again after assignment. non-trivial = distinct (history, scenario) "
             "with source dimension >= 1 or a move/swap/serialisation scenario",
-    "assumptions": ["oracle::ComplexModel is the trusted model", "stream precision set to max_digits10 by the caller (documented responsibility)",
-                    "Matrix part of C15 and TSan runs: see the other units of this spec when present"],
+    "assumptions": ["a moved-from Matrix is made usable again by assigning a matrix to it (it owns no column settings; direct reuse is not offered by the library)", "Matrix part: 11 pointer-rich instantiations (intrusive rows/columns, pools, Z_p operators pointer, compression, RU+vine, chain+map container, removable columns)", "oracle::ComplexModel is the trusted model", "stream precision set to max_digits10 by the caller (documented responsibility)",
+                    "TSan thread workloads live in the C03 (Simplex_tree) and C10 (field tables) checks"],
     "units": [
         {"name": "st", "src": _SRC, "variant": "asan",
          "configs": {("st_" + n): {"quick": 700, "thorough": 40000} for n in _OPTS}, "chunk": 25},
+        {"name": "mx", "src": ["c15_main.cpp", "c15_mx_a.cpp", "c15_mx_b.cpp", "c15_mx_c.cpp"], "variant": "asan",
+         "configs": {n: {"quick": 500, "thorough": 30000} for n in _MX}, "chunk": 25},
+        {"name": "mx_gcc", "src": ["c15_main.cpp", "c15_mx_a.cpp", "c15_mx_b.cpp", "c15_mx_c.cpp"], "variant": "gasan", "tiers": ["thorough"],
+         "configs": {n: {"thorough": 3000} for n in _MX}, "chunk": 25},
         {"name": "st_gcc", "src": _SRC, "variant": "gasan", "tiers": ["thorough"],
          "configs": {("st_" + n): {"thorough": 5000} for n in _OPTS}, "chunk": 25},
     ],
     "floors": {"quick": {"scenario.copy_ctor": 200, "scenario.move_assign": 200, "scenario.self_copy_assign": 100, "scenario.serialize": 200,
                          "state.source_upper_bound_stale": 100, "cmp.deserialize_truncated": 1000, "steps.divergent": 5000,
-                         "_distinct_nontrivial": 1000}},
+                         "_distinct_nontrivial": 1000, "cmp.matrix_independence": 1500, "cmp.matrix_moved_from_reuse": 500, "op.matrix_remove_last": 100}},
     "manifest": {
         "text": "Runtime monitor under ASan+UBSan: copies, assignments (incl. self), moves, swaps, binary and text serialisation of Simplex_trees in reachable "
                 "states (after removals/prunings, stale dimension caches, emptied trees) must yield objects observationally equal to the model through every "
